@@ -465,3 +465,167 @@ Example ignore_examples :
   /\ str_splitlines [97; 13; 10; 98; 12; 99]%N = [[97; 13; 10]; [98; 12]; [99]]%N
   /\ split_lines [97; 13; 10; 98; 12; 99]%N = [[97; 13; 10]; [98; 12; 99]]%N.
 Proof. repeat split; vm_compute; reflexivity. Qed.
+
+(* ------------------------------------------------------------------------------------------ *)
+(* 7. (round 5) nodes: the character range handed to has_ignore_comment for a node against the node's
+      physical lines.  The direct-editing back end and the rules' own guards ask about get_charnos(node),
+      which starts at the "@" of the first decorator. *)
+
+Fixpoint nf (k : nat) (pos : Z) (ls : list text) : list (nat * (range * text)) :=
+  match ls with
+  | [] => []
+  | l :: tl => let e := (pos + Z.of_nat (length l))%Z in (k, ((pos, e), l)) :: nf (S k) e tl
+  end.
+
+Lemma numbered_nf_gen : forall ls k pos,
+  combine (seq k (length (line_ranges pos ls))) (line_ranges pos ls) = nf k pos ls.
+Proof.
+  induction ls as [|l tl IH]; intros k pos; simpl; [reflexivity|]. f_equal. apply IH.
+Qed.
+
+Lemma numbered_nf : forall src, numbered src = nf 0 0 (split_lines src).
+Proof. intros src. unfold numbered. cbv zeta. apply numbered_nf_gen. Qed.
+
+Lemma nf_bounds : forall ls k pos i a b t,
+  In (i, ((a, b), t)) (nf k pos ls) -> (k <= i)%nat /\ (pos <= a)%Z /\ (a <= b)%Z.
+Proof.
+  induction ls as [|l tl IH]; intros k pos i a b t H; simpl in H; [contradiction|].
+  destruct H as [H|H].
+  - inversion H; subst. lia.
+  - apply IH in H. lia.
+Qed.
+
+(* the table is sorted and contiguous: an earlier line ends before a later one starts *)
+Lemma nf_sorted : forall ls k pos i j a b t c d u,
+  In (i, ((a, b), t)) (nf k pos ls) -> In (j, ((c, d), u)) (nf k pos ls) ->
+  ((i < j)%nat -> (b <= c)%Z) /\ (i = j -> a = c /\ b = d).
+Proof.
+  induction ls as [|l tl IH]; intros k pos i j a b t c d u H1 H2; simpl in H1, H2; [contradiction|].
+  destruct H1 as [H1|H1]; destruct H2 as [H2|H2].
+  - inversion H1; inversion H2; subst. split; [lia | intros _; split; reflexivity].
+  - inversion H1; subst. apply nf_bounds in H2. split; lia.
+  - inversion H2; subst. apply nf_bounds in H1. split; lia.
+  - eapply IH; eassumption.
+Qed.
+
+Lemma existsb_filter_map : forall (A B : Type) (f : B -> bool) (g : A -> B) (p : A -> bool) l,
+  existsb f (map g (filter p l)) = existsb (fun x => p x && f (g x)) l.
+Proof.
+  induction l as [|a l IH]; simpl; [reflexivity|]. destruct (p a); simpl; rewrite IH; reflexivity.
+Qed.
+
+Lemma existsb_ext_in : forall (A : Type) (f g : A -> bool) l,
+  (forall x, In x l -> f x = g x) -> existsb f l = existsb g l.
+Proof.
+  induction l as [|a l IH]; simpl; intros H; [reflexivity|].
+  rewrite (H a) by (left; reflexivity). rewrite IH; [reflexivity|]. intros x Hx. apply H. right. exact Hx.
+Qed.
+
+Lemma existsb_orb : forall (A : Type) (f g : A -> bool) l,
+  existsb (fun x => f x || g x) l = existsb f l || existsb g l.
+Proof.
+  induction l as [|a l IH]; simpl; [reflexivity|]. rewrite IH.
+  destruct (f a), (g a), (existsb f l), (existsb g l); reflexivity.
+Qed.
+
+Lemma has_ignore_numbered : forall src coms r,
+  has_ignore src coms r = existsb (fun e => protects coms e && touches r (snd e)) (numbered src).
+Proof.
+  intros src coms r. unfold has_ignore, ignore_entries, numbered, protects. cbv zeta.
+  apply existsb_filter_map.
+Qed.
+
+(* T20.4: a non-empty range that starts inside physical line [first] and ends inside line [last] is refused by
+   has_ignore_comment exactly when one of the lines first..last protects.  For the range core.get_charnos
+   computes for a decorated definition, [first] is the line of the first decorator. *)
+Theorem node_range_is_its_lines : forall src coms r first last,
+  spans src r first last = true ->
+  has_ignore src coms r = node_lines_ignore src coms first last.
+Proof.
+  intros src coms r first last H. rewrite has_ignore_numbered. unfold node_lines_ignore.
+  unfold spans in H. apply andb_true_iff in H as [H H3]. apply andb_true_iff in H as [H1 H2].
+  apply existsb_exists in H2 as ([i1 [[a1 b1] t1]] & In1 & H2).
+  apply existsb_exists in H3 as ([i2 [[a2 b2] t2]] & In2 & H3).
+  cbn [fst snd] in H2, H3.
+  apply andb_true_iff in H2 as [H2 H2c]. apply andb_true_iff in H2 as [H2a H2b].
+  apply andb_true_iff in H3 as [H3 H3c]. apply andb_true_iff in H3 as [H3a H3b].
+  apply Nat.eqb_eq in H2a, H3a. subst i1 i2.
+  apply Z.ltb_lt in H1, H2c, H3b. apply Z.leb_le in H2b, H3c.
+  rewrite numbered_nf in *.
+  apply existsb_ext_in. intros [i [[a b] t]] Hin. cbn [fst snd].
+  pose proof (nf_sorted _ _ _ _ _ _ _ _ _ _ _ Hin In1) as [S1 E1].
+  pose proof (nf_sorted _ _ _ _ _ _ _ _ _ _ _ In1 Hin) as [S2 _].
+  pose proof (nf_sorted _ _ _ _ _ _ _ _ _ _ _ Hin In2) as [S3 E3].
+  pose proof (nf_sorted _ _ _ _ _ _ _ _ _ _ _ In2 Hin) as [S4 _].
+  pose proof (nf_sorted _ _ _ _ _ _ _ _ _ _ _ In2 In1) as [S5 _].
+  pose proof (nf_bounds _ _ _ _ _ _ _ Hin) as B0.
+  pose proof (nf_bounds _ _ _ _ _ _ _ In1) as B1.
+  pose proof (nf_bounds _ _ _ _ _ _ _ In2) as B2.
+  unfold touches. cbn [fst snd].
+  assert (Hne : (fst r =? snd r)%Z = false) by (apply Z.eqb_neq; lia). rewrite Hne.
+  unfold overlaps. cbn [fst snd].
+  destruct (protects coms _); [rewrite andb_true_r; cbn [andb] | rewrite andb_false_r; reflexivity].
+  destruct (fst r <? b)%Z eqn:X1; destruct (a <? snd r)%Z eqn:X2;
+    destruct (Nat.leb first i) eqn:X3; destruct (Nat.leb i last) eqn:X4; cbn [andb]; try reflexivity; exfalso;
+    rewrite ?Z.ltb_lt, ?Z.ltb_ge, ?Nat.leb_le, ?Nat.leb_gt in *; lia.
+Qed.
+
+(* the lines of a node split at any line in between: decorator lines first..lineno-1, then lineno..last *)
+Lemma node_lines_split : forall src coms first lineno last,
+  (first < lineno)%nat -> (lineno <= last)%nat ->
+  node_lines_ignore src coms first last
+  = node_lines_ignore src coms first (lineno - 1) || node_lines_ignore src coms lineno last.
+Proof.
+  intros src coms first lineno last H1 H2. unfold node_lines_ignore. rewrite <- existsb_orb.
+  apply existsb_ext_in. intros [i e] _. cbn [fst].
+  destruct (protects coms (i, e)); [|rewrite !andb_false_r; reflexivity]. rewrite !andb_true_r.
+  destruct (Nat.leb first i) eqn:X1; destruct (Nat.leb i last) eqn:X2; destruct (Nat.leb i (lineno - 1)) eqn:X3;
+    destruct (Nat.leb lineno i) eqn:X4; cbn [andb orb]; try reflexivity; exfalso;
+    rewrite ?Nat.leb_le, ?Nat.leb_gt in *; lia.
+Qed.
+
+(* T20.4b: a range that starts only at the def/class line (node.lineno) misses exactly the decorator lines *)
+Theorem late_start_misses_decorator_lines : forall src coms r r' first lineno last,
+  spans src r first last = true -> spans src r' lineno last = true ->
+  (first < lineno)%nat -> (lineno <= last)%nat ->
+  has_ignore src coms r = node_lines_ignore src coms first (lineno - 1) || has_ignore src coms r'.
+Proof.
+  intros src coms r r' first lineno last H1 H2 L1 L2.
+  rewrite (node_range_is_its_lines _ _ _ _ _ H1), (node_range_is_its_lines _ _ _ _ _ H2).
+  apply node_lines_split; assumption.
+Qed.
+
+(* the reading "node.lineno .. node.end_lineno" (seed C20-d) is NOT what the range means:
+   "@d  # pyrefact: ignore\ndef f(): pass\n", the range of the decorated definition (from the "@" to the end
+   of "pass") is refused, the lines lineno..end_lineno (the def line alone) do not protect *)
+Definition DECO_SRC : text :=
+  [64; 100; 32; 32; 35; 32; 112; 121; 114; 101; 102; 97; 99; 116; 58; 32; 105; 103; 110; 111; 114; 101; 10;
+   100; 101; 102; 32; 102; 40; 41; 58; 32; 112; 97; 115; 115; 10]%N.
+
+Theorem lineno_reading_refuted :
+  exists src coms r first lineno last,
+    spans src r first last = true /\ (first < lineno)%nat /\ (lineno <= last)%nat
+    /\ has_ignore src coms r = true /\ node_lines_ignore src coms lineno last = false.
+Proof.
+  exists DECO_SRC, (Some [0%nat]), (0, 36)%Z, 0%nat, 1%nat, 1%nat.
+  split; [vm_compute; reflexivity|]. split; [lia|]. split; [lia|].
+  split; vm_compute; reflexivity.
+Qed.
+
+(* under the guard "no decorator line protects" the lineno reading is right *)
+Theorem lineno_reading_partial : forall src coms r first lineno last,
+  spans src r first last = true -> (first < lineno)%nat -> (lineno <= last)%nat ->
+  node_lines_ignore src coms first (lineno - 1) = false ->
+  has_ignore src coms r = node_lines_ignore src coms lineno last.
+Proof.
+  intros src coms r first lineno last H L1 L2 G.
+  rewrite (node_range_is_its_lines _ _ _ _ _ H), (node_lines_split _ _ _ _ _ L1 L2), G. reflexivity.
+Qed.
+
+Example node_examples :
+  spans DECO_SRC (0, 36)%Z 0 1 = true /\ spans DECO_SRC (23, 36)%Z 1 1 = true
+  /\ spans DECO_SRC (23, 36)%Z 0 1 = false
+  /\ has_ignore DECO_SRC (Some [0%nat]) (23, 36)%Z = false
+  /\ node_lines_ignore DECO_SRC (Some [0%nat]) 0 1 = true
+  /\ node_lines_ignore DECO_SRC (Some [0%nat]) 0 0 = true.
+Proof. repeat split; vm_compute; reflexivity. Qed.
